@@ -15,6 +15,8 @@
      defined on the abstract syntax of Spec/MiniGo.v, and [expr_ok ...]: every NAME in the
      program is an identifier over ASCII and not a keyword.  Integers (any Z; a negative one
      is the two tokens `-` and the digits) and strings (any byte string) are unconstrained.
+     A struct tag must be one that is written as an interpreted string ([tag_ok]; the scanner
+     model has no raw strings: C01_tokens_raw_tag_outside_model).
    - Proofs/TokensProofs.v: the proofs (a boundary predicate [sep_ok] per token class; the
      bytes the printer puts after a token stop every token).
 
@@ -22,11 +24,20 @@
    for types, expressions, statements, clauses, declarations and files; and the same for the
    output of the RENDERER on the tree the DSL builds (with Props/C01_canon.v).
 
+   KEYED COMPOSITE LITERALS.  jennifer writes the pairs of a Dict sorted by the TEXT of their
+   keys, so the token sequence of EKeyed t pairs is that of the elements IN THAT ORDER
+   ([keyed_sorted pairs], Spec/MiniGo.v - the one place where [texpr] refers to the printer:
+   sorting is by text), each element `k : v`, and when there are several elements each is
+   followed by `,` - the last one too (Go: ElementList [ "," ]).  The rendered program is the
+   source program up to the order of keyed elements (and that final comma):
+   C01_tokens_keyed_order, C01_tokens_keyed_in_order, C01_tokens_keyed_any_map_order.
+
    WHAT IS NOT.  That Go's parser builds the tree a from these tokens (the grammar; harness
    oracle c01).  That [golex] is go/scanner: it is a model, tied to the code by differential
    cases only. *)
 From Jen Require Import Base.Bytes Base.Num GoStd.Quote GoStd.Tokens Model.Code Model.Naming Model.Render Model.FileRender.
-From Jen Require Import Spec.MiniGo Spec.MiniGoTokens Proofs.TokensProofs.
+From Jen Require Import Spec.MiniGo Spec.MiniGoTokens Proofs.CanonProofs Proofs.TokensProofs.
+From Coq Require Import Permutation.
 
 (* ------------------------------------------------------------------ the canonical text *)
 (* Every type whose names are identifiers: its text is scanned into its tokens. *)
@@ -56,6 +67,26 @@ Proof. exact golex_cdecl. Qed.
 Theorem C01_tokens_file : forall name ds, ident_ok name = true -> forallb decl_ok ds = true ->
   golex (cfile name ds) = Some (tfile name ds).
 Proof. exact golex_cfile. Qed.
+
+(* ------------------------------------------------------------------ keyed elements *)
+(* The tokens of a keyed literal are those of the literal with its elements in the order of
+   their key texts (a permutation of the elements: Props/C01_canon.v, C01_canon_keyed_order). *)
+Theorem C01_tokens_keyed_order : forall t pairs, texpr (EKeyed t pairs) = texpr (EKeyed t (keyed_sorted pairs)).
+Proof. exact keyed_tokens_sorted. Qed.
+
+(* For a literal already in that order: the tokens of the type, `{`, the tokens of the elements
+   as they stand ([tkeyed]: `k : v` for one element, `k : v ,` each for several), `}`. *)
+Theorem C01_tokens_keyed_in_order : forall t pairs, keyed_sorted pairs = pairs ->
+  texpr (EKeyed t pairs) = tty t ++ top (S "{") :: tkeyed (map ttoks_pair pairs) ++ [top (S "}")].
+Proof. exact keyed_tokens_in_order. Qed.
+
+Theorem C01_tokens_ttoks_pair_def : forall kv, ttoks_pair kv = (texpr (fst kv), texpr (snd kv)).
+Proof. intros; reflexivity. Qed.
+
+(* With pairwise distinct key texts the order of the pairs in the map does not matter. *)
+Theorem C01_tokens_keyed_any_map_order : forall t pairs pairs',
+  keys_ok pairs = true -> Permutation pairs pairs' -> texpr (EKeyed t pairs) = texpr (EKeyed t pairs').
+Proof. exact keyed_tokens_perm. Qed.
 
 (* ------------------------------------------------------------------ the renderer's output *)
 (* Whatever the renderer returns for the tree the DSL builds - under any configuration, in
@@ -157,7 +188,7 @@ Definition tx_int := TName (S "int").
    a - -b, x & ^y, p < -1, * p ++, <- -1, + i + + i, x &^= x &^ y; slices with omitted
    bounds; the variadic dots; a string with `//`, quotes and `/* */` in it *)
 Definition tokens_ex_prog : decl :=
-  DFunc (S "f") [(S "p", TPtr tx_int); (S "m", TMap (TName (S "string")) (TSlice tx_int))] (Some tx_int)
+  DFunc (S "f") [(S "p", TPtr tx_int); (S "m", TMap (TName (S "string")) (TSlice tx_int))] [tx_int]
   [ SVar (S "s") None (Some (EStr (S "// not a ""comment"" /* */")));
     SIf (Some (SAssign tx_a [tx_b] ADefine (EBin tx_a BSub (EUn UMinus tx_b)) [EBin tx_x BAnd (EUn UXor tx_y)]))
         (EBin tx_p BLt (EInt (-1)))
@@ -171,7 +202,7 @@ Definition tokens_ex_prog : decl :=
                        [ESlice tx_a None (Some (EInt (-1))); ESlice3 tx_a None None None] true)];
     SSwitch None (Some (EComp (TSlice tx_int) [EInt 1; EInt (-2)]))
       [CCase (EInt 1) [EInt (-2)] [SBreak (Some (S "L")); SReturn [EUn UAmp (EParen tx_x)]];
-       CDefault [SGo (EFunc [] None [SReturn []]) [] false]];
+       CDefault [SGo (EFunc [] [] [SReturn []]) [] false]];
     SRange tx_i (Some tx_b) true tx_a [SContinue None];
     SReturn [EBin (EBool true) BLand (EBin ENil BNe tx_p)] ].
 
@@ -226,6 +257,130 @@ Example C01_tokens_example_rendered :
   end = Some (tfile (S "p") [tokens_ex_prog]).
 Proof. vm_compute. reflexivity. Qed.
 
+(* a keyed literal: the elements come out sorted by key text, each followed by a comma *)
+Example C01_tokens_example_keyed :
+  let e := EKeyed (TName (S "T")) [(tx_b, EInt 2); (tx_a, EKeyed (TSlice tx_int) [(EInt 0, tx_x)])] in
+  expr_ok e = true /\
+  cexpr e = S "T {" ++ nl ++ S "a:[] int {0:x}," ++ nl ++ S "b:2," ++ nl ++ S "}" /\
+  golex (cexpr e) = Some (texpr e) /\
+  texpr e = [tid (S "T"); top (S "{");
+             tid (S "a"); top (S ":"); top (S "["); top (S "]"); tid (S "int"); top (S "{");
+               (KInt, S "0"); top (S ":"); tid (S "x"); top (S "}"); top (S ",");
+             tid (S "b"); top (S ":"); (KInt, S "2"); top (S ","); top (S "}")].
+Proof. vm_compute. repeat split; reflexivity. Qed.
+
+(* ------------------------------------------------------------------ example 2: the constructs added later *)
+(* struct types (also empty, nested; a field with a tag that jennifer must write as an
+   interpreted string because it contains a backquote), interface types with method signatures (no result, one,
+   several), func types with a variadic parameter and two results, array and channel types of
+   the three directions, a keyed composite literal written in the source as {Y: 2, X: 1}, a
+   method declaration with a receiver, a variadic parameter and two results, a labeled
+   statement, goto, fallthrough, a send statement, a type assertion, a func literal with two
+   results, a select statement (receive, send and default clauses), type switches (with init
+   statement and binding; bare and without clauses) *)
+Definition nx_int := TName (S "int").
+Definition nx_decls : list decl :=
+  [ DType (S "Point")
+      (TStruct [(S "X", nx_int, [(S "json", S "a`b"); (S "db", S "X")]); (S "Y", nx_int, []);
+                (S "tags", TMap (TName (S "string")) (TArray 4 (TName (S "byte"))), []);
+                (S "inner", TStruct [], []);
+                (S "cb", TFunc [(S "a", nx_int); (S "rest", TEllipsis (TName (S "string")))] [nx_int; TName (S "error")], [])]);
+    DType (S "Shape")
+      (TIface [(S "Area", ([], [TName (S "float64")])); (S "Scale", ([(S "k", nx_int)], []));
+               (S "Pair", ([], [nx_int; nx_int]))]);
+    DType (S "Empty") (TIface []);
+    DVars [(S "in", Some (TChan CRecv nx_int), None);
+           (S "out", Some (TChan CSend (TChan CBoth nx_int)), None);
+           (S "origin", None, Some (EKeyed (TName (S "Point")) [(EId (S "Y"), EInt 2); (EId (S "X"), EInt 1)]))];
+    DMethod (S "p", TPtr (TName (S "Point"))) (S "Move") [(S "dx", nx_int); (S "ds", TEllipsis nx_int)]
+      [nx_int; TName (S "error")]
+      [ SLabeled (S "L")
+          (SLoop [ SSwitch None (Some (EId (S "dx")))
+                     [CCase (EInt 0) [] [SFallthrough]; CDefault [SGoto (S "L")]];
+                   SSend (EId (S "out")) (EAssert (EId (S "v")) (TChan CBoth nx_int));
+                   SBreak (Some (S "L")) ]);
+        SAssign (EId (S "f")) [] ADefine (EFunc [] [nx_int; nx_int] [SReturn [EInt 1; EInt 2]]) [];
+        SReturn [EInt 0; ENil] ];
+    DFunc (S "one") [] [TFunc [] []] [SReturn [ENil]];
+    DFunc (S "sel") [(S "v", TIface [])] []
+      [ SSelect [CComm (SAssign (EId (S "x")) [] ADefine (EUn UArrow (EId (S "in"))) [])
+                       [SExpr (ECall (EId (S "use")) [EId (S "x")] false)];
+                 CComm (SSend (EId (S "out")) ENil) [];
+                 CDefault []];
+        STypeSwitch (Some (SAssign (EId (S "y")) [] ADefine (EId (S "v")) [])) (Some (S "t")) (EId (S "y"))
+          [CType nx_int [TName (S "string")] [SExpr (ECall (EId (S "use")) [EId (S "t")] false)];
+           CType (TPtr (TName (S "Point"))) [] [];
+           CDefault []];
+        STypeSwitch None None (EId (S "v")) [] ] ].
+
+Example C01_tokens_example_new :
+  forallb decl_ok nx_decls = true /\
+  cfile (S "p") nx_decls = S "package p
+
+
+type Point struct{
+X int ""db:\""X\"" json:\""a`b\""""
+Y int
+tags map[string] [4] byte
+inner struct{}
+cb func (a int,rest ... string) (int,error)
+}
+type Shape interface{
+Area () float64
+Scale (k int)
+Pair () (int,int)
+}
+type Empty interface{}
+var (
+in <- chan int
+out chan <- chan int
+origin = Point {
+X:1,
+Y:2,
+}
+)
+func (p * Point) Move (dx int,ds ... int) (int,error) {
+L : for  {
+switch dx {
+case 0: " ++ nl ++ S "fallthrough
+default: " ++ nl ++ S "goto L
+}
+out <- v .(chan int)
+break L
+}
+f := func () (int,int) {
+return 1,2
+}
+return 0,nil
+}
+func one () func () {
+return nil
+}
+func sel (v interface{}) {
+select {
+case x := <- in: " ++ nl ++ S "use (x)
+case out <- nil: " ++ nl ++ S "default: " ++ nl ++ S "}
+switch y := v;t := y .(type) {
+case int,string: " ++ nl ++ S "use (t)
+case * Point: " ++ nl ++ S "default: " ++ nl ++ S "}
+switch v .(type) {}
+}" /\
+  golex (cfile (S "p") nx_decls) = Some (tfile (S "p") nx_decls) /\
+  length (tfile (S "p") nx_decls) = 239%nat /\
+  file_raw (build_file (S "p") nx_decls) = Ok ([], cfile (S "p") nx_decls).
+Proof. vm_compute. repeat split; reflexivity. Qed.
+
+(* STRUCT TAGS AND THE SCANNER MODEL.  jennifer writes a tag between backquotes whenever
+   strconv.CanBackquote allows it - a raw string literal, a token class the scanner model
+   GoStd/Tokens.v does not have (it answers None, conservatively; the model is pinned to
+   go/scanner by the generated differential cases of Gen/LexDiff.v, which expect None there).
+   So [ty_ok] asks of a tag that it is NOT backquotable ([tag_ok]); a conventional tag is
+   outside the token theorems - render = canon (Props/C01_canon.v) covers it. *)
+Example C01_tokens_raw_tag_outside_model :
+  let t := TStruct [(S "A", nx_int, [(S "json", S "a")])] in
+  ty_ok t = false /\ cty t = S "struct{" ++ nl ++ S "A int `json:""a""`" ++ nl ++ S "}" /\ golex (cty t) = None.
+Proof. vm_compute. repeat split; reflexivity. Qed.
+
 Print Assumptions C01_tokens_type.
 Print Assumptions C01_tokens_expr.
 Print Assumptions C01_tokens_stmt.
@@ -237,6 +392,9 @@ Print Assumptions C01_tokens_rendered_expr.
 Print Assumptions C01_tokens_rendered_stmt.
 Print Assumptions C01_tokens_rendered_decl.
 Print Assumptions C01_tokens_rendered_file.
+Print Assumptions C01_tokens_keyed_order.
+Print Assumptions C01_tokens_keyed_in_order.
+Print Assumptions C01_tokens_keyed_any_map_order.
 Print Assumptions C01_tokens_boundary.
 Print Assumptions C01_tokens_boundary_bytes.
 Print Assumptions C01_tokens_longest_match.
